@@ -553,9 +553,24 @@ class ApplyScale(Contract):
     def __call__(self, interp, a, scale, feat):
         if scale == "linear":
             return a
-        r = interp.ctx.arr("log_scaled", "F", n=a.n, dtype=np.dtype("float64"))
-        interp.ctx.__dict__.setdefault("_scaled", {})[feat] = r      # for the specification
-        return r
+        return log_scaled(interp, a)
+
+
+LOGF = z3.Function("log_of_value", F, F)
+
+
+def log_scaled(interp, a):
+    """np.log elementwise as an uninterpreted function of the value (NaN / -inf where the value is not
+    positive: nothing about the values is needed, only that equal inputs give equal outputs); the same
+    array gives the same term in the code and in the specification"""
+    ctx = interp.ctx
+    store = ctx.__dict__.setdefault("_log_scaled", {})
+    key = a.a.get_id()
+    if key not in store:
+        r = models.arr_new(interp, a.n, lambda k: LOGF(a.sel(k)), "F", np.dtype("float64"))
+        store[key] = (r.a, r.n)
+    a_term, n_term = store[key]
+    return SArr(n_term, a_term, "F", dtype=np.dtype("float64"))
 
 
 class DsFeature(Contract):
@@ -592,6 +607,8 @@ class GetDownsampledScatter(Contract):
 
     def __init__(self, remove_invalid, scale, findings=()):
         self.remove_invalid, self.scale = remove_invalid, scale
+        # "linear" / "log": both axes; "log/linear", "linear/log": one scale per axis
+        self.xscale, self.yscale = scale.split("/") if "/" in scale else (scale, scale)
         self.findings = set(findings)
         self.name = f"RTDCBase.get_downsampled_scatter[remove_invalid={remove_invalid}, {scale}]"
         super().__init__()
@@ -608,8 +625,8 @@ class GetDownsampledScatter(Contract):
                             "filter": ctx.obj("Filter", {"all": fa})}, name="ds")
         d = ctx.int("downsample", lo=0, hi=2 ** 32 - 1, inp=True)
         self._X, self._Y, self._fa, self._N = X, Y, fa, N.e
-        return {"self": ds, "xax": "area_um", "yax": "deform", "downsample": d, "xscale": self.scale,
-                "yscale": self.scale, "remove_invalid": self.remove_invalid, "ret_mask": True}
+        return {"self": ds, "xax": "area_um", "yax": "deform", "downsample": d, "xscale": self.xscale,
+                "yscale": self.yscale, "remove_invalid": self.remove_invalid, "ret_mask": True}
 
     def ensures(self, ctx, old, a, result):
         x, y, mask = result
@@ -621,8 +638,9 @@ class GetDownsampledScatter(Contract):
         cnt = count(fake, SArr(mask.n, mask.a, "bool"))
         # eligible with remove_invalid: filtered events whose scaled coordinates are finite
         xf, yf = models.mask_select(fake, self._X, fa), models.mask_select(fake, self._Y, fa)
-        sc = ctx.__dict__.get("_scaled", {})
-        xs, ys = sc.get("area_um", xf), sc.get("deform", yf)
+        # the scale of each axis is the one requested for that axis
+        xs = log_scaled(fake, xf) if self.xscale == "log" else xf
+        ys = log_scaled(fake, yf) if self.yscale == "log" else yf
         good = models.arr_new(fake, xf.n, lambda k: z3.And(F.is_fin(xs.sel(k)), F.is_fin(ys.sel(k))), "bool")
         good = SArr(good.n, good.a, "bool")
         g = getattr(self, "_grid", None)
@@ -658,24 +676,26 @@ class GetDownsampledScatter(Contract):
 
 
 UNITS += [GetDownsampledScatter(ri, sc, _active()) for ri in (False, True) for sc in ("linear", "log")]
+UNITS += [GetDownsampledScatter(True, sc, _active()) for sc in ("log/linear", "linear/log")]
 TRUSTED += [ApplyScale("x") if False else ApplyScale(), DsFeature(), DsLen()]
 
 
 def _check_scatter(X, Y, fa, d, remove_invalid, scale):
     import dclab
+    xscale, yscale = scale.split("/") if "/" in scale else (scale, scale)
     ds = dclab.new_dataset({"area_um": X, "deform": Y})
     ds.filter.manual[:] = fa
     ds.apply_filter()
     try:
-        x, y, mask = ds.get_downsampled_scatter(xax="area_um", yax="deform", downsample=d, xscale=scale,
-                                                yscale=scale, remove_invalid=remove_invalid, ret_mask=True)
-        x2, y2, mask2 = ds.get_downsampled_scatter(xax="area_um", yax="deform", downsample=d, xscale=scale,
-                                                   yscale=scale, remove_invalid=remove_invalid, ret_mask=True)
+        x, y, mask = ds.get_downsampled_scatter(xax="area_um", yax="deform", downsample=d, xscale=xscale,
+                                                yscale=yscale, remove_invalid=remove_invalid, ret_mask=True)
+        x2, y2, mask2 = ds.get_downsampled_scatter(xax="area_um", yax="deform", downsample=d, xscale=xscale,
+                                                   yscale=yscale, remove_invalid=remove_invalid, ret_mask=True)
     except Exception as ex:
         return f"raises {type(ex).__name__}: {ex}"
     with np.errstate(all="ignore"):
-        xs = np.log(X) if scale == "log" else X
-        ys = np.log(Y) if scale == "log" else Y
+        xs = np.log(X) if xscale == "log" else X
+        ys = np.log(Y) if yscale == "log" else Y
     valid = np.isfinite(xs) & np.isfinite(ys) & fa
     P, G = int(fa.sum()), int(valid.sum())
     want = (d if 0 < d < G else G) if remove_invalid else (d if 0 < d <= P else P)
@@ -701,7 +721,7 @@ def replay(unit_name, inp, obligation=""):   # noqa: F811
     import warnings
     if unit_name.startswith("RTDCBase.get_downsampled_scatter"):
         ri = "remove_invalid=True" in unit_name
-        scale = "log" if "log" in unit_name else "linear"
+        scale = unit_name[unit_name.rindex(", ") + 2:-1]
         n = inp.get("N")
         if n is None:
             n = max(len(inp.get("area_um", [])), len(inp.get("deform", [])), len(inp.get("filter_all", [])))
@@ -725,9 +745,11 @@ def in_carve_out(unit_name, inp):   # noqa: F811
         n = inp.get("N") or len(inp.get("area_um", []))
         X, Y = _arr(inp.get("area_um", []), n), _arr(inp.get("deform", []), n)
         fa = np.array((list(inp.get("filter_all", [])) + [False] * n)[:n], dtype=bool)
+        scale = unit_name[unit_name.rindex(", ") + 2:-1]
+        xscale, yscale = scale.split("/") if "/" in scale else (scale, scale)
         with np.errstate(all="ignore"):
-            if "log" in unit_name:
-                X, Y = np.log(X), np.log(Y)
+            X = np.log(X) if xscale == "log" else X
+            Y = np.log(Y) if yscale == "log" else Y
         valid = np.isfinite(X) & np.isfinite(Y) & fa
         d = int(inp.get("downsample", 0))
         if 0 < d < valid.sum() and (np.ptp(X[valid]) == 0 or np.ptp(Y[valid]) == 0):
